@@ -399,6 +399,24 @@ pub fn literal_coords(ints: &[u64], depth: u8) -> Vec<u32> {
   v.into_iter().map(|x| x as u32).collect()
 }
 
+/// Cells whose two coordinates are mid-word integer literals of the current sources (all ordered
+/// pairs of at most `keep` values), in an equatorial and a polar base cell.
+pub fn literal_cells(ints: &[u64], depth: u8, keep: usize) -> Vec<u64> {
+  let mut coords = literal_coords(ints, depth);
+  coords.sort_by_key(|c| (c.trailing_zeros() < 8, *c));
+  coords.truncate(keep);
+  let mut v = vec![];
+  for &i in &coords {
+    for &j in &coords {
+      v.push(encode(depth, 5, i, j));
+      v.push(encode(depth, 1, i, j));
+    }
+  }
+  v.sort();
+  v.dedup();
+  v
+}
+
 /// A few generic off-lattice points (lon, lat).
 pub fn generic_points() -> Vec<(f64, f64)> {
   vec![
